@@ -2,10 +2,13 @@ package props
 
 import (
 	"fmt"
+	"math/rand"
+	"sort"
 	"strings"
 	"time"
 
 	"github.com/cloudflare/pint/internal/diags"
+	"github.com/cloudflare/pint/internal/output"
 	"github.com/cloudflare/pint/internal/parser"
 
 	"github.com/cloudflare/pint/verif/core"
@@ -18,6 +21,131 @@ type c06Case struct {
 	Doc    string `json:"doc"`
 	Strict bool   `json:"strict"`
 	Binary bool   `json:"binary"`
+	Nested int    `json:"nested,omitempty"` // the rule document is embedded this many block scalars deep (Doc is the whole file)
+	Carets int64  `json:"carets,omitempty"` // seed for the sub-ranges whose rendering is checked
+}
+
+// c06Embed wraps a rule document into an outer YAML file as a block scalar, depth times (a ConfigMap, a ConfigMap
+// rendered into a List as a string ...). Returns the file and by how many lines / columns the document moved.
+func c06Embed(doc string, depth int, r interface{ Intn(int) int }) (text string, dLine, dCol int) {
+	text = doc
+	for d := 0; d < depth; d++ {
+		ind := 2 + r.Intn(3)
+		head := []string{"apiVersion: v1", "kind: ConfigMap", "data:", strings.Repeat(" ", ind-1) + "rules.yml: |"}
+		if d > 0 || r.Intn(2) == 0 {
+			head = []string{"items:", "  spec: x", "  " + []string{"rendered", "alerts", "content"}[r.Intn(3)] + ": |"}
+			ind = 3 + r.Intn(3)
+		}
+		var out []string
+		out = append(out, head...)
+		for _, l := range strings.Split(strings.TrimSuffix(text, "\n"), "\n") {
+			if l == "" {
+				out = append(out, "")
+			} else {
+				out = append(out, strings.Repeat(" ", ind)+l)
+			}
+		}
+		text = strings.Join(out, "\n") + "\n"
+		dLine += len(head)
+		dCol += ind
+	}
+	return text, dLine, dCol
+}
+
+// c06Carets renders one diagnostic for a sub-range of a field through the real InjectDiagnostics and compares the
+// carets with the characters the positions address. Rule: the carets are drawn under the last line of the range, one
+// per displayed character whose first byte is addressed, and that line is printed as it is in the file.
+func c06Carets(doc string, lines []string, pos []core.PosRange, first, last int) string {
+	units := expandPos(pos)
+	if first < 1 || last > len(units) || first > last {
+		return ""
+	}
+	sub := units[first-1 : last]
+	lastLine := 0
+	for _, u := range sub {
+		lastLine = max(lastLine, u.line)
+	}
+	if lastLine < 1 || lastLine > len(lines) {
+		return ""
+	}
+	src := strings.TrimSuffix(lines[lastLine-1], "\r")
+	want := map[int]bool{} // rune index -> caret
+	addressed := map[int]bool{}
+	for _, u := range sub {
+		if u.line == lastLine {
+			addressed[u.col] = true
+		}
+	}
+	ri := 0
+	for bi := range lines[lastLine-1] {
+		if addressed[bi+1] {
+			want[ri] = true
+		}
+		ri++
+	}
+	if len(want) == 0 {
+		return "" // only a line break is addressed on that line
+	}
+	pr := make(diags.PositionRanges, len(pos))
+	for i, p := range pos {
+		pr[i] = diags.PositionRange{Line: p.Line, FirstColumn: p.FirstColumn, LastColumn: p.LastColumn}
+	}
+	var rendered string
+	func() {
+		defer func() {
+			if r := recover(); r != nil {
+				rendered = fmt.Sprintf("PANIC: %v", r)
+			}
+		}()
+		rendered = diags.InjectDiagnostics(doc, []diags.Diagnostic{{Message: "MSG", Pos: pr, FirstColumn: first, LastColumn: last}}, output.None)
+	}()
+	if strings.HasPrefix(rendered, "PANIC") {
+		return "render-panic: " + rendered
+	}
+	out := strings.Split(rendered, "\n")
+	for i, l := range out {
+		bar := strings.Index(l, " | ")
+		if bar < 0 || strings.TrimSpace(l[:bar]) != fmt.Sprint(lastLine) {
+			continue
+		}
+		if strings.TrimSuffix(l[bar+3:], "\r") != src {
+			return fmt.Sprintf("source line %d printed as %q, file has %q", lastLine, l[bar+3:], src)
+		}
+		if i+1 >= len(out) || !strings.HasSuffix(out[i+1], " MSG") {
+			return fmt.Sprintf("no caret line under line %d: %q", lastLine, rendered)
+		}
+		cl := strings.TrimSuffix(out[i+1], " MSG")
+		if len(cl) < bar+3 {
+			return fmt.Sprintf("caret line too short under line %d: %q", lastLine, out[i+1])
+		}
+		got := map[int]bool{}
+		for ci, ch := range cl[bar+3:] {
+			if ch == '^' {
+				got[ci] = true
+			}
+		}
+		for k := range want {
+			if !got[k] {
+				return fmt.Sprintf("character %d of line %d (%q) is addressed but has no caret: %q", k, lastLine, src, out[i+1])
+			}
+		}
+		for k := range got {
+			if !want[k] {
+				return fmt.Sprintf("caret under character %d of line %d (%q) which is not addressed (addressed byte columns %v): %q", k, lastLine, src, sortedInts(addressed), out[i+1])
+			}
+		}
+		return ""
+	}
+	return fmt.Sprintf("line %d not printed: %q", lastLine, rendered)
+}
+
+func sortedInts(m map[int]bool) []int {
+	var out []int
+	for k := range m {
+		out = append(out, k)
+	}
+	sort.Ints(out)
+	return out
 }
 
 type posUnit struct{ line, col int }
@@ -59,11 +187,13 @@ func readBack(lines []string, units []posUnit, value string) string {
 		l := lines[u.line-1]
 		want := v[i]
 		switch {
-		case u.col == len(l)+1 || (u.col == len(l) && strings.HasSuffix(l, "\r")):
+		case u.col >= len(l)+1 || (u.col == len(l) && strings.HasSuffix(l, "\r")):
+			// past the end of the line: a line break (in an embedded document the column offset of the block is
+			// added to the unit of an empty line as well, so it can lie further right than one past the end)
 			if want != '\n' && want != ' ' {
 				return fmt.Sprintf("spell: unit %d (%d:%d) is a line break but value byte is %q", i, u.line, u.col, want)
 			}
-		case u.col < 1 || u.col > len(l)+1:
+		case u.col < 1:
 			return fmt.Sprintf("outside-line: unit %d at %d:%d, line has %d bytes", i, u.line, u.col, len(l))
 		default:
 			if l[u.col-1] != want {
@@ -139,6 +269,7 @@ type c06Outcome struct {
 	keys    []string // non-trivial distinct keys
 	fields  int
 	diagsOK int
+	carets  int
 }
 
 func c06Check(c *core.Ctx, cs c06Case, rend *gen.Rendered) c06Outcome {
@@ -191,6 +322,26 @@ func c06Check(c *core.Ctx, cs c06Case, rend *gen.Rendered) c06Outcome {
 		if msg := readBack(lines, units, fd.value); msg != "" {
 			mk(strings.SplitN(msg, ":", 2)[0], msg)
 			continue
+		}
+		if cs.Carets != 0 && len(units) > 0 {
+			cr := rand.New(rand.NewSource(cs.Carets + int64(out.fields)))
+			for k := 0; k < 2; k++ {
+				a := 1 + cr.Intn(len(units))
+				b := a + cr.Intn(min(len(units)-a+1, 12))
+				if k == 1 {
+					a, b = 1, len(units)
+				}
+				out.carets++
+				if msg := c06Carets(cs.Doc, lines, fd.pos, a, b); msg != "" {
+					out.viol = append(out.viol, core.Violation{
+						Sig:   "carets-miss-the-addressed-characters:" + map[bool]string{true: "non-ascii-line", false: "ascii-line"}[strings.ContainsFunc(fd.value, func(r rune) bool { return r > 127 })],
+						What:  fmt.Sprintf("field %s of rule %d, diagnostic columns %d-%d of value %q: %s", fd.path, fd.rule, a, b, core.Trunc(fd.value, 80), msg),
+						Case:  cs,
+						Files: files,
+					})
+					break
+				}
+			}
 		}
 		if known {
 			// every unit inside the source extent the writer gave this field
@@ -345,6 +496,14 @@ func runC06(c *core.Ctx) int {
 		o.BlankInside = r.Intn(3) == 0
 		o.IndentInd = r.Intn(5) == 0
 		o.CRLF = r.Intn(8) == 0
+		o.NonASCII = r.Intn(3) == 0
+		// one document in six is embedded one or two block scalars deep (relaxed parser, YAML inside YAML); those
+		// use none of the spellings with known position defects, so whatever fails there is about nesting
+		nested := 0
+		if r.Intn(6) == 0 {
+			nested = 1 + r.Intn(2)
+			o.Escapes, o.BlankInside, o.IndentInd, o.CRLF = false, false, false, false
+		}
 		d := gen.RandDoc(r, o)
 		strict := true
 		if r.Intn(3) == 0 {
@@ -355,10 +514,29 @@ func runC06(c *core.Ctx) int {
 			strict = false
 		}
 		rend := d.Render()
-		cs := c06Case{Doc: rend.Text, Strict: strict, Binary: i%step == 0}
+		cs := c06Case{Doc: rend.Text, Strict: strict, Binary: i%step == 0, Carets: int64(i) + 1}
+		if nested > 0 {
+			var dl int
+			cs.Doc, dl, _ = c06Embed(rend.Text, nested, r)
+			cs.Nested, cs.Strict = nested, false
+			for k := range rend.Fields {
+				rend.Fields[k].Ext.KeyLine += dl
+				rend.Fields[k].Ext.FirstLine += dl
+				rend.Fields[k].Ext.LastLine += dl
+			}
+			for k := range rend.Rules {
+				rend.Rules[k].First += dl
+				rend.Rules[k].Last += dl
+			}
+			run.Count(fmt.Sprintf("nested_depth_%d_documents", nested), 1)
+		}
 		oc := c06Check(c, cs, &rend)
 		run.Eval(1)
 		run.Count("fields_read_back", int64(oc.fields))
+		run.Count("caret_renderings_checked", int64(oc.carets))
+		if o.NonASCII {
+			run.Count("documents_with_multibyte_values", 1)
+		}
 		run.Count("diagnostics_checked", int64(oc.diagsOK))
 		for _, v := range oc.viol {
 			run.Violate(v)
@@ -370,7 +548,7 @@ func runC06(c *core.Ctx) int {
 			run.Sample(map[string]any{"strict": strict, "doc": core.Trunc(cs.Doc, 500)})
 		}
 	})
-	run.Assume("read-back rule: unit i is value byte i; a unit one past the end of its line is a line break spelling \\n or the space of a fold; trailing line breaks of a value may have no unit; for CRLF files the unit after the \\r counts as the line break")
+	run.Assume("read-back rule: unit i is value byte i; a unit past the end of its line is a line break spelling \\n or the space of a fold; trailing line breaks of a value may have no unit; for CRLF files the unit after the \\r counts as the line break")
 	run.Assume("each generated field is tagged with the risky features of its spelling (dq-escape, blank-inside, indent-indicator, multiline-plain, multiline-quoted, more-indented-line, sq-quote, flow); a violation's signature carries the scalar style and that feature set")
 	return run.Finish("exploration",
 		"documents from the all-style generator (plain, single/double quoted, literal and folded blocks with every chomping indicator, explicit indentation indicators, multi-line plain and quoted scalars, blank lines inside, escapes, flow mappings, comments and blank lines at every gap, indentation 1-4, CRLF, strict groups and bare relaxed lists) parsed in-process; for every extracted field the positions are read back from the file unit by unit against the value, units must stay inside the field's source lines, rule line ranges must enclose their fields, stay inside the file and inside the rule's own source lines; a sample is run through the pint binary and every diagnostic's column range must address bytes of the field its positions belong to. Non-trivial = quoted, block, multi-line or feature-carrying field; distinct by (style, features, line count).",
